@@ -90,8 +90,12 @@ class InjectedFault(RuntimeError):
 def make_patch(spec: dict, isa: str, log: Optional[list] = None,
                fault: Optional[dict] = None) -> Patch:
     text = patch_text(spec, isa)
+    # optional constraints (C11: prologue/epilogue generation must be deterministic too)
+    cons = dict(spec.get("cons") or {})
+    if "clobbers_registers" in cons:
+        cons["clobbers_registers"] = set(cons["clobbers_registers"])
 
-    @patch_constraints(x86_syntax=X86Syntax.ATT)
+    @patch_constraints(x86_syntax=X86Syntax.ATT, **cons)
     def fn(ctx):
         if log is not None:
             log.append(ctx)
